@@ -453,6 +453,12 @@ func (s *Set) Value(_ context.Context, t *dials.Type) (reflect.Value, error) {
 			ffield.Set(fval.Elem())
 			return
 		}
+		if fval.Kind() == reflect.Ptr && ffield.Kind() == reflect.Ptr && fval.Type().ConvertibleTo(ffield.Type()) {
+			// the flag holds a pointer to the underlying type of a named
+			// type (e.g. *complex128 for a named complex128 field)
+			ffield.Set(fval.Convert(ffield.Type()))
+			return
+		}
 
 		if willOverflow(fval, ptrVal.Elem()) {
 			setErr = fmt.Errorf("value for flag %q (%s) would overflow type %s",
